@@ -481,21 +481,23 @@ func (p Sqlite) DeleteAlert(alert_id string) error {
 func (p Sqlite) CreateContact(newContact *alertutils.Contact) error {
 	var contact alertutils.Contact
 	result := p.db.First(&contact, "contact_name = ?", newContact.ContactName)
-	if result.Error != nil {
-		if !errors.Is(result.Error, gorm.ErrRecordNotFound) {
-			err := fmt.Errorf("CreateContact: contact name: %v already exist, Error=%v", newContact.ContactName, result.Error)
-			log.Error(err.Error())
-			return err
-		} else {
-			contact_id := CreateUniqId()
-			newContact.ContactId = contact_id
-			result = p.db.Create(&newContact)
-			if result.Error != nil && result.RowsAffected != 1 {
-				err := fmt.Errorf("CreateContact: unable to create contact: %v, Error=%v", newContact.ContactName, result.Error)
-				log.Error(err.Error())
-				return err
-			}
-		}
+	if result.Error == nil {
+		err := fmt.Errorf("CreateContact: contact name: %v already exists", newContact.ContactName)
+		log.Error(err.Error())
+		return err
+	}
+	if !errors.Is(result.Error, gorm.ErrRecordNotFound) {
+		err := fmt.Errorf("CreateContact: unable to check if contact name: %v exists, Error=%v", newContact.ContactName, result.Error)
+		log.Error(err.Error())
+		return err
+	}
+	contact_id := CreateUniqId()
+	newContact.ContactId = contact_id
+	result = p.db.Create(&newContact)
+	if result.Error != nil && result.RowsAffected != 1 {
+		err := fmt.Errorf("CreateContact: unable to create contact: %v, Error=%v", newContact.ContactName, result.Error)
+		log.Error(err.Error())
+		return err
 	}
 	return nil
 }
